@@ -88,6 +88,22 @@ def oracle_typing(c):
                 if missing:
                     fails.append(Failure(f"flag_not_shared_after_reparse:{kind}", f"after parse_tracts() twice, description {kind}_flags {missing!r} are missing on tract[{i}] ({t.trs})", **ctx))
                     break
+        # ... nor must configuring the (already parsed) tracts for it, with or without parsing them again
+        if not fails:
+            steps = [("config_tracts('qq_depth_min.1')", lambda: d.config_tracts("qq_depth_min.1")),
+                     ("parse_tracts(config='break_halves')", lambda: d.parse_tracts(config="break_halves"))]
+            if c.get("source") in (42, 0):
+                steps.reverse()
+            for what, step in steps:
+                step()
+                for i, t in enumerate(d.tracts):
+                    check_flag_lists(t, f"tract[{i}] after {what}", fails, ctx)
+                    missing = [f for kind in ("w", "e") for f in getattr(d, f"{kind}_flags") if isinstance(f, str) and f not in getattr(t, f"{kind}_flags")]
+                    if missing:
+                        fails.append(Failure("flag_not_shared_after_reconfiguring_tracts", f"after {what}, description flags {missing!r} are missing on tract[{i}] ({t.trs})", **ctx))
+                        break
+                if fails:
+                    break
     if committed and any(t.trs_is_error() for t in tracts) and not d.e_flags:
         fails.append(Failure("error_trs_without_flag", f"a tract has an undecipherable Twp/Rge/Sec but e_flags is empty: {[t.trs for t in tracts]}", **ctx))
     if committed and not fails:
@@ -115,7 +131,9 @@ TRIGGERS = {
     "less_except": ["less and except", "LESS AND EXCEPT", "except", "less", "Less & Except".replace("&", "and"), "limited to", "excepting"],
     "insofar": ["insofar as", "in so far as", "only insofar as", "but only insofar as", "INSOFAR AS"],
     "including": ["including", "incl.", "Including"],
-    "depth": ["from the surface to the base of", "as to all depths", "the Dakota formation", "down to 5000 feet", "depths below the top of"],
+    "depth": ["from the surface to the base of", "as to all depths", "the Dakota formation", "down to 5000 feet", "depths below the top of",
+              # plural / compound forms of the same words
+              "the Bakken and Three Forks formations", "subsurface rights only", "both surfaces and"],
     "well": ["the wellbore of", "the Smith 1-14 well", "wellbore only", "Well"],
 }
 TAILS = ["the north 10 acres", "the Johnson tract", "a 5 acre parcel", "the road"]
